@@ -50,6 +50,18 @@ func vCorpusBatchA() ([]index.Document, *sSpec) {
 	return vGenBatch(cfg)
 }
 
+// d: the batch of a with an incompressible 200-byte doc-value term in field g (doc-value chunk data above 128
+// bytes: two-byte varints in the chunk tables, the two trailer numbers differ)
+func vCorpusBatchD() ([]index.Document, *sSpec) {
+	for k, v := range vCorpusPinsA {
+		vPin(k, v)
+	}
+	cfg := vCorpusCfgA()
+	cfg.allWide = true
+	cfg.fields[1].terms = []string{vLongTerm}
+	return vGenBatch(cfg)
+}
+
 var vCorpusPinsB = map[string]uint64{
 	"ufp0_0": 1, "ulen0_0_0": 2, "uhas0_0_0_0": 1, "unl0_0_0_0": 1, "upos0_0_0_0_0": 3, "ust0_0_0_0_0": 1, "uen0_0_0_0_0": 2, "uhas0_0_0_1": 1, "unl0_0_0_1": 0, "ufreq0_0_0_1": 2,
 	"ufp1_0": 1, "ulen1_0_0": 1, "uhas1_0_0_0": 0, "uhas1_0_0_1": 1, "unl1_0_0_1": 0, "ufreq1_0_0_1": 1,
@@ -105,6 +117,10 @@ func Hcorpus_write() {
 	sseg, _, err := z.newWithChunkMode(sdocs, DefaultChunkMode)
 	vAssert(err == nil, "build-c")
 	vAssert(sseg.(*SegmentBase).Persist(filepath.Join(dir, "c.zap")) == nil, "persist-c")
+	ddocs, _ := vCorpusBatchD()
+	dseg, _, err := z.newWithChunkMode(ddocs, DefaultChunkMode)
+	vAssert(err == nil, "build-d")
+	vAssert(dseg.(*SegmentBase).Persist(filepath.Join(dir, "d.zap")) == nil, "persist-d")
 }
 
 // H09_corpus: files written by the pinned release are opened by the current code with unchanged answers,
@@ -138,4 +154,13 @@ func H09_corpus() {
 	c, err := z.Open(vP("c.zap"))
 	vAssert(err == nil, "open-c")
 	sCheckThesauri(c, spC, nil, nil, "c-")
+	// d: long doc-value term
+	_, spD := vCorpusBatchD()
+	vFSPut(vP("d.zap"), vCorpusD)
+	d, err := z.Open(vP("d.zap"))
+	vAssert(err == nil, "open-d")
+	sCheckStored(d, spD, "d-")
+	sCheckPostings(d, spD, "d-")
+	sCheckDocValues(d, spD, []int{1, 2, 0}, "d-")
+	lCheckAgainstSpecX(vCorpusD, spD, DefaultChunkMode, "d-", !vSymbolic())
 }
